@@ -491,14 +491,15 @@ def tlc_oracle(module, cfg, cases, workdir, max_skips=300, timeout=3000):
     """TLC as oracle: `module` reads the ndjson file IOEnv.CASES and prints one
     GEN record (with the case's id) per case.  A case whose exact arithmetic
     overflows TLC's 32-bit integers is dropped (counted).  Returns
-    ({id: record}, skipped, TlcResult-accumulated states)."""
-    expected, skipped, states = {}, 0, 0
+    ({id: record}, skipped, (distinct states, states generated))."""
+    expected, skipped, states, trans = {}, 0, 0, 0
     remaining = list(cases)
     path = os.path.join(workdir, "oracle_%s.ndjson" % module)
     while remaining:
         write_ndjson(path, remaining)
         r = tlc(module, cfg, workers=1, coverage=False, env={"CASES": path}, timeout=timeout)
         states += r.distinct
+        trans += r.generated
         ids = []
         for g in r.gen:
             if g["id"] not in expected:
@@ -514,4 +515,4 @@ def tlc_oracle(module, cfg, cases, workdir, max_skips=300, timeout=3000):
             remaining = remaining[done + 1:]
             continue
         raise ToolingError("oracle %s failed: %s" % (module, (r.error or "")[:800]))
-    return expected, skipped, states
+    return expected, skipped, (states, trans)
